@@ -2,6 +2,7 @@ import LocustModel.Query.Arith
 import LocustModel.Query.ArithSpec
 import LocustModel.Query.ArithTree
 import LocustModel.Query.ArithPlan
+import LocustModel.Query.ArithSelect
 import LocustModel.Lemmas.C06Shell
 import LocustModel.Lemmas.C06Sum
 import LocustModel.Lemmas.C06Plan
@@ -413,6 +414,85 @@ theorem C06_plan_sound (len ncols : Nat) (cols : Nat → Option PCol)
   exact (C06_tree_sound e _ he (hrows j hj) _ hm).1
 
 example : Supported (.bin .add (.col 0) (.bin .mul (.col 1) (.const 3))) := by simp [Supported, isConst]
+
+-- ----------------------------------------------------------------------------------------------------------------
+-- Assembly of the partitions' cells into the result that is shown (batch_merging select branch + get_raw).
+
+/-- The property for `SELECT <expr>` at full strength: the rows that are shown are the cells the partitions computed
+    (which are exact by `C06_plan_sound`). -/
+def C06_select_statement : Prop :=
+  ∀ (parts : List (Nat × (Nat → Option PCol))) (e : Expr) (cells : List (Option Int)),
+    runQuery parts e = .rows cells → cells = partCells parts e
+
+/-- **What is shown = what was computed**, outside the region `sentinelShown` of the open finding: the result column
+    is nullable (or Null-typed) in at least one partition — the merged column is then a `Vec<Val>` in which a present
+    i64::MAX is `Val::Integer` (`NullableToVal` after fix a145ed7, `to_mixed` for the plain partitions) — or no computed
+    cell equals i64::MAX, the one value `wrap_one` reads as NULL in a plain I64 result column. -/
+theorem C06_select_partial (parts : List (Nat × (Nat → Option PCol))) (e : Expr) (cells : List (Option Int))
+    (h : runQuery parts e = .rows cells)
+    (hr : sentinelShown parts e = false) :
+    cells = partCells parts e := by
+  have hr : allNonNullable parts e = false ∨ some I64_MAX ∉ partCells parts e := by
+    simp only [sentinelShown, Bool.and_eq_false_iff] at hr
+    rcases hr with h1 | h2
+    · exact Or.inl h1
+    · right; intro hm; simp [hm] at h2
+  have hid : ∀ cs : List (Option Int), some I64_MAX ∉ cs → cs.map renderI64 = cs := by
+    intro cs hcs
+    induction cs with
+    | nil => rfl
+    | cons c cs ih =>
+      simp only [List.mem_cons, not_or] at hcs
+      simp only [List.map_cons, ih hcs.2]
+      have : renderI64 c = c := by
+        unfold renderI64; split
+        · rename_i hc; exact absurd hc.symm hcs.1
+        · rfl
+      rw [this]
+  unfold runQuery at h
+  simp only at h
+  split at h
+  · cases h
+  · split at h
+    · cases h
+    · split at h
+      · cases h
+      · split at h
+        · cases h
+        · injection h with h
+          subst h
+          rcases hr with hn | hm
+          · split
+            · rename_i hc
+              have hc' : allNonNullable parts e = true := hc
+              rw [hn] at hc'; cases hc'
+            · rfl
+          · split
+            · exact hid _ hm
+            · rfl
+
+/-- The full statement is FALSE for the code as it is (finding `select-i64max-null`): one partition, `c0 = [MAX-1, 5]`
+    without NULLs, `SELECT c0 + 1`: the partition computes `[MAX, 6]` exactly, the result shows `[NULL, 6]`.
+    Replayed on the real code by `corpus:select-i64max-null`. -/
+theorem C06_select_refuted : ¬ C06_select_statement := by
+  intro h
+  have := h [(2, fun i => if i = 0 then some ⟨[some (I64_MAX - 1), some 5]⟩ else none)]
+    (.bin .add (.col 0) (.const 1)) [none, some 6] (by rfl)
+  revert this
+  decide
+
+/-- Non-vacuity of `C06_select_partial`: the same values with a NULL in the column (result column nullable) are outside
+    the finding's region and shown exactly; the refuting witness is inside the region. -/
+example : sentinelShown [(2, fun i => if i = 0 then some ⟨[some (I64_MAX - 1), none]⟩ else none)]
+    (.bin .add (.col 0) (.const 1)) = false := by decide
+example : runQuery [(2, fun i => if i = 0 then some ⟨[some (I64_MAX - 1), none]⟩ else none)]
+    (.bin .add (.col 0) (.const 1)) = .rows [some I64_MAX, none] := by rfl
+example : sentinelShown [(2, fun i => if i = 0 then some ⟨[some (I64_MAX - 1), some 5]⟩ else none)]
+    (.bin .add (.col 0) (.const 1)) = true := by decide
+/-- Two partitions, the first plain I64 holding the i64::MAX result, the second nullable: shown exactly. -/
+example : runQuery [(2, fun i => if i = 0 then some ⟨[some (I64_MAX - 1), some 5]⟩ else none),
+                    (2, fun i => if i = 0 then some ⟨[some 3, none]⟩ else none)]
+    (.bin .add (.col 0) (.const 1)) = .rows [some I64_MAX, some 6, some 4, none] := by rfl
 
 end Plan
 
